@@ -24,12 +24,118 @@ PA = "program_structure/src/program_library/program_archive.rs"
 RUN = "program_analysis/src/analysis_runner.rs"
 
 
+def eval_template_library(ctx, R):
+    """`TemplateLibrary::new` by evaluation on file maps whose ids have gaps (a file that failed to parse has an id but no
+    contents) and that are handed over in different orders: every definition is stored with the id of the file it was
+    parsed from, the first definition of a name in file-id order is the one kept - whatever order the map is walked in -
+    and each further one is reported once, at its own location in its own file.  Returns True when decided."""
+    import passeval
+    from finfun import Unsupported
+    from passeval import MMap, O, Panic, Sink, V
+
+    ASTF = "program_structure/src/abstract_syntax_tree/ast.rs"
+    try:
+        w = passeval.PassWorld([ASTF, TL], TL)
+    except Exception:  # noqa: BLE001
+        return False
+    w.lenient_opaque = True
+    key = ("TemplateLibrary", "new")
+    if key not in w.methods or "TemplateLibrary" not in w.structs:
+        return False
+    fn = w.methods[key][0]
+    st = site(TL, find_fn(TL, "new", "TemplateLibrary"))
+
+    def tdef(kind, name, f):
+        m = ("O", "meta:%s@%d" % (name, f), (("file_location", O("location:%s@%d" % (name, f))), ("get_file_id", f)))
+        common = dict(meta=m, name=name, args=("L", ()), arg_location=O("arg-location"), body=O("body:%s@%d" % (name, f)))
+        if kind == "T":
+            return V("Definition", "Template", parallel=False, is_custom_gate=False, **common)
+        return V("Definition", "Function", **common)
+
+    def vec(xs):
+        s_ = Sink()
+        s_.items = list(xs)
+        return s_
+
+    # file id -> definitions (kind, name)
+    projects = [
+        {0: [("T", "A"), ("F", "f"), ("T", "B")], 2: [("T", "B"), ("F", "g")]},
+        {1: [("F", "h")], 3: [("T", "C"), ("F", "h"), ("T", "C")], 5: [("T", "h"), ("T", "D")]},
+    ]
+    problems = {}
+    n = 0
+    try:
+        for proj in projects:
+            ids = sorted(proj)
+            for order in (ids, ids[::-1], ids[1:] + ids[:1]):
+                reports = []
+
+                def report(_name, _args):
+                    rec = {"primary": []}
+                    reports.append(rec)
+                    return ("O", "report", (("*", ("PY", lambda m_, a_, rec=rec: (rec["primary"].append(tuple(a_[:2])) if m_ == "add_primary" else None, ("T", ()))[1])),))
+
+                w.opaque = (("Report::", report),)
+                contents = MMap([[f, vec([tdef(k_, nm, f) for k_, nm in proj[f]])] for f in order])
+                res = w.call_fn(fn, [contents, O("file_library")])
+                n += 1
+                if not (isinstance(res, tuple) and len(res) > 2 and res[0] == "S" and res[1] == "TemplateLibrary"):
+                    raise Unsupported("TemplateLibrary::new returns %r" % (res,))
+                fields = dict(zip(w.structs["TemplateLibrary"], res[2]))
+                stored = {}
+                for fld in ("templates", "functions"):
+                    mp = fields.get(fld)
+                    if not isinstance(mp, MMap):
+                        raise Unsupported("field %s is %r" % (fld, mp))
+                    for nm, data in mp.pairs:
+                        if not (isinstance(data, tuple) and data[0] == "K" and len(data[2]) >= 3):
+                            raise Unsupported("a definition stored as %r" % (data,))
+                        stored[nm] = (fld, data[2][1], data[2][2])
+                want = {}
+                dups = []
+                for f in ids:
+                    for k_, nm in proj[f]:
+                        if nm in want:
+                            dups.append((nm, f))
+                        else:
+                            want[nm] = ("templates" if k_ == "T" else "functions", f, O("body:%s@%d" % (nm, f)))
+                tag = "files %s handed over in the order %s" % (ids, list(order))
+                for nm, (fld, f, body) in want.items():
+                    got = stored.get(nm)
+                    if got is None or got[0] != fld:
+                        problems.setdefault("kept", "%s: `%s` is not in the %s table" % (tag, nm, fld))
+                    elif got[2] != body:
+                        problems.setdefault("kept", "%s: the definition of `%s` that is kept is %s, the first one in file order is in file %d" % (tag, nm, got[2][1] if isinstance(got[2], tuple) else got[2], f))
+                    elif got[1] != f:
+                        problems.setdefault("file", "%s: `%s` was parsed from file %d and is stored with file id %r" % (tag, nm, f, got[1]))
+                if set(stored) - set(want):
+                    problems.setdefault("kept", "%s: unexpected entries %s" % (tag, sorted(set(stored) - set(want))))
+                got_d = sorted((p_[0][0][1] if isinstance(p_[0][0], tuple) else p_[0][0], p_[0][1]) for p_ in (r_["primary"] for r_ in reports) if p_)
+                want_d = sorted(("location:%s@%d" % (nm, f), f) for nm, f in dups)
+                if len(reports) != len(dups) or got_d != want_d:
+                    problems.setdefault("duplicates", "%s: %d duplicate report(s) at %s, expected %s" % (tag, len(reports), got_d, want_d))
+                rep_f = fields.get("reports")
+                if not isinstance(rep_f, Sink) or len(rep_f.items) != len(reports):
+                    problems.setdefault("duplicates", "%s: %d report(s) built, %s returned" % (tag, len(reports), len(rep_f.items) if isinstance(rep_f, Sink) else rep_f))
+    except (Unsupported, Panic) as u:
+        ctx.note("TemplateLibrary::new is outside the evaluator's subset (%s): shape obligations apply" % u)
+        w.opaque = ()
+        return False
+    w.opaque = ()
+    ctx.check(R, "TemplateLibrary::new/evaluated/first-definition-in-file-order-is-kept", "kept" not in problems, problems.get("kept") or "%d file maps: the definition kept for a name is the first one in file-id order, in whatever order the map is handed over" % n, st)
+    ctx.check(R, "TemplateLibrary::new/evaluated/definition-keeps-the-id-of-its-file", "file" not in problems, problems.get("file") or "every definition is stored with the id of the file it was parsed from (ids with gaps)", st)
+    ctx.check(R, "TemplateLibrary::new/evaluated/each-duplicate-reported-at-its-own-location", "duplicates" not in problems, problems.get("duplicates") or "one report per further definition of a name, at that definition's location and file", st)
+    return True
+
+
 def rule_tables(ctx):
     R = "C17.1"
     ctx.rule(R, "name-keyed definition tables are filled by visiting the files in sorted order, and an existing entry is never overwritten (so neither the surviving definition nor the reported duplicate depends on hash order)")
     fn = find_fn(TL, "new", "TemplateLibrary")
     if fn is None:
         ctx.missing(R, "TemplateLibrary::new")
+    elif eval_template_library(ctx, R):
+        pass
     else:
         t = render(fn["body"]).replace(" ", "")
         loops = [l for l in walk(fn["body"]) if l["k"] == "For" and render(strip(l["iter"])) == "library_contents"]
